@@ -574,6 +574,20 @@ func (a *Allocator) AllocationKey(svc string) string {
 	return ""
 }
 
+// Footprint describes the addresses and ports a service occupies, "" if it has no allocation.
+func (a *Allocator) Footprint(svc string) string {
+	alloc := a.allocated[svc]
+	if alloc == nil {
+		return ""
+	}
+	ports := make([]string, 0, len(alloc.ports))
+	for _, p := range alloc.ports {
+		ports = append(ports, p.String())
+	}
+	sort.Strings(ports)
+	return fmt.Sprintf("%s %s", alloc.ips, ports)
+}
+
 // PoolForIP returns the pool structure associated with an IP.
 func (a *Allocator) PoolForIP(ips []net.IP) *config.Pool {
 	return poolFor(a.pools.ByName, ips)
